@@ -37,10 +37,73 @@ def _plain_iter(x):
         x = x[:start] + x[inner_open + 1:j] + x[j + 1:]
 
 
+_VALUES = _re.compile(r"BTreeMap::values\(([\w.]+)\)")
+_ZIPPED = _re.compile(r"^Ok\(Map\(\w+::collect\(\w+::zip\(Keys::cloned\(BTreeMap::keys\(([\w.]+)\)\), (.*)\)\)\)\)$")
+
+
+def _values_then_zip(p):
+    """a map evaluated as `values()` in order and zipped back with `keys()` (std: both iterate in key order) is the map
+    evaluated entry by entry: the k-th value is the value of the k-th entry, the result its key paired with it"""
+    txt = str(p["events"]) + str(p["conds"]) + str(p["ret"])
+    m = _VALUES.search(txt)
+    if not m:
+        return p
+    X = m.group(1)
+    src, ent = "BTreeMap::values(%s)" % X, "into_iter(%s)" % X
+
+    def fix(x):
+        if isinstance(x, str):
+            x = _re.sub(r"elem(\d+)\(%s\)" % _re.escape(src), lambda k: "elem%s(%s).1" % (k.group(1), ent), x)
+            return x.replace(src, ent)
+        if isinstance(x, tuple):
+            return tuple(fix(y) for y in x)
+        return x
+    events = [fix(e) for e in p["events"]]
+    ret = fix(p["ret"])
+    mz = _ZIPPED.match(ret)
+    if ret.startswith("Err(") and "zip" not in str(events):
+        # a path that fails before the zip: the values collected so far are the entries' values all the same
+        k = 0
+        new_events = []
+        coll = "BTreeMap::new()"
+        for e in events:
+            if e[0] == "call" and e[1] == "Vec::push" and len(e) == 4:
+                key_k = "elem%d(%s).0" % (k, ent)
+                new_events.append(("call", "BTreeMap::insert", coll, key_k, e[3]))
+                coll = "insert(%s, %s, %s)" % (coll, key_k, e[3])
+                k += 1
+            elif e[0] == "call" and e[1] in ("Vec::new", "Vec::with_capacity"):
+                new_events.append(("call", "BTreeMap::new"))
+            else:
+                new_events.append(e)
+        events = new_events
+    if mz and mz.group(1) == X:
+        # the vector of values (pushes in order) paired with the keys in order -> inserts of (key_k, value_k)
+        vals = mz.group(2)
+        k = 0
+        new_events = []
+        coll = "BTreeMap::new()"
+        for e in events:
+            if e[0] == "call" and e[1] == "Vec::push" and len(e) == 4:
+                key_k = "elem%d(%s).0" % (k, ent)
+                new_events.append(("call", "BTreeMap::insert", coll, key_k, e[3]))
+                coll = "insert(%s, %s, %s)" % (coll, key_k, e[3])
+                k += 1
+            elif e[0] == "call" and e[1] in ("Vec::new", "Vec::with_capacity"):
+                new_events.append(("call", "BTreeMap::new"))
+            else:
+                new_events.append(e)
+        if vals.count("push(") == k or (k == 0 and _FRESH.match(vals)):
+            events = new_events
+            ret = "Ok(Map(%s))" % coll
+    return dict(p, events=tuple(events), conds=tuple((fix(a), b) for a, b in p["conds"]), ret=ret)
+
+
 def canon_path(p, opfns):
     """-> list of canonical (conds, events, ret) (a path may expand into several)"""
     p = dict(p, events=tuple(tuple(_plain_iter(y) for y in e) for e in p["events"]),
              conds=tuple((_plain_iter(a), b) for a, b in p["conds"]), ret=_plain_iter(p["ret"]))
+    p = _values_then_zip(p)
     events = []
     op_term = None
     ctx_term = None
